@@ -61,6 +61,8 @@ def run_rquery(w, q, fault=None):
     uni = w.get(q[1], ["KUniverse"])
     if t == "PLAIN":
         rfunc = (lambda v: "None" if v is None else f"v{w.id_of(v)}") if q[3] else None
+        if q[3] == 2:                  # a rendering function that is not injective
+            rfunc = (lambda v: "None" if v is None else f"w{w.id_of(v) % 2}")
         sort = (lambda v: std_key(w.id_of(v))) if q[2] else None
 
         def go():
@@ -131,7 +133,7 @@ def parse_puml(w, src, ci):
 def c_rq(q):
     t = q[0]
     if t == "PLAIN":
-        return f"RPlain {q[1]} {C.cbool(q[2])}"
+        return f"RPlain {q[1]} {C.cbool(q[2])} {C.cbool(q[3] == 2)}"
     if t == "PYVIS":
         return f"RPyvis {q[1]}"
     return f"RPuml {q[1]} {q[2]}"
